@@ -2519,13 +2519,14 @@ impl ModuleGraph {
 
     // walk the graph
     while let Some(specifier) = seen_pending.next_pending() {
-      let specifier = match self.redirects.get(&specifier) {
-        Some(redirected_specifier) => {
-          seen_pending.add(redirected_specifier.clone());
+      // an entry stored under a specifier wins over a redirect recorded for
+      // the same specifier (see `ModuleGraph::resolve`)
+      if let Some(redirected_specifier) = self.redirects.get(&specifier) {
+        seen_pending.add(redirected_specifier.clone());
+        if !self.module_slots.contains_key(&specifier) {
           continue;
         }
-        None => specifier,
-      };
+      }
       let Some(module) = self.module_slots.get_mut(&specifier) else {
         continue;
       };
